@@ -538,7 +538,7 @@ impl<'a> MtHelpers<'a> {
                             dispatch_reply(deps, env, msg, contract).map_err(Into::into)
                         }
                     } else {
-                        let reply_name = _reply.name().to_case(Case::Snake);
+                        let reply_name = _reply.function_name();
                         quote! {
                             self. #reply_name ((deps, env).into(), msg).map_err(Into::into)
                         }
